@@ -31,7 +31,7 @@ macro "close_doc" : tactic =>
 theorem C25_transitions {a h : Bool} {s s' : St} {x : ConnState} (hr : Reach a h s) (hs : s' ∈ obs s (.st x)) :
     doc s.last x = true := by
   have hi := C25_invariant hr
-  rcases s with ⟨upc, mpc, cl, ca, sess, last, auto, hooks⟩
+  rcases s with ⟨upc, mpc, cl, ca, sess, last, auto, hooks, fa, stl⟩
   simp only [obs, List.mem_append] at hs
   rcases hs with hA | hB
   · cases hooks <;> cases mpc <;> simp_all
@@ -48,7 +48,7 @@ theorem C25_transitions {a h : Bool} {s s' : St} {x : ConnState} (hr : Reach a h
 theorem C25_only_closed_after_close {a h : Bool} {s s' : St} {x : ConnState} (hr : Reach a h s)
     (hc : s.cancelled = true) (hs : s' ∈ obs s (.st x)) : x = .closed := by
   have hi := C25_invariant hr
-  rcases s with ⟨upc, mpc, cl, ca, sess, last, auto, hooks⟩
+  rcases s with ⟨upc, mpc, cl, ca, sess, last, auto, hooks, fa, stl⟩
   simp only at hc; subst hc
   simp only [obs, List.mem_append] at hs
   rcases hs with hA | hB
@@ -64,7 +64,7 @@ theorem C25_only_closed_after_close {a h : Bool} {s s' : St} {x : ConnState} (hr
 theorem C25_no_dial_after_close {a h : Bool} {s : St} (hr : Reach a h s) (hc : s.cancelled = true) :
     obs s .dial = [] := by
   have hi := C25_invariant hr
-  rcases s with ⟨upc, mpc, cl, ca, sess, last, auto, hooks⟩
+  rcases s with ⟨upc, mpc, cl, ca, sess, last, auto, hooks, fa, stl⟩
   simp only at hc; subst hc
   cases hooks <;> cases upc <;> cases mpc <;> simp [obs] <;> close_inv
 
@@ -75,7 +75,7 @@ theorem C25_monitor_exits {a h : Bool} {s s' : St} (hr : Reach a h s) (hc : s.ca
     (hs : s' ∈ tau s ∨ ∃ e, s' ∈ obs s e) :
     s'.cancelled = true ∧ (s'.mpc = s.mpc ∨ exitRank s'.mpc < exitRank s.mpc) := by
   have hi := C25_invariant hr
-  rcases s with ⟨upc, mpc, cl, ca, sess, last, auto, hooks⟩
+  rcases s with ⟨upc, mpc, cl, ca, sess, last, auto, hooks, fa, stl⟩
   simp only at hc; subst hc
   rcases hs with h | ⟨e, h⟩
   · simp only [tau, List.mem_append] at h
@@ -124,7 +124,7 @@ theorem C25_monitor_exits {a h : Bool} {s s' : St} (hr : Reach a h s) (hc : s.ca
 theorem C25_closed_is_final {a h : Bool} {s : St} (hr : Reach a h s) (h1 : s.cl = .ended) (h2 : s.mpc = .dead) :
     s.last = .closed ∧ tau s = [] ∧ ∀ e, obs s e = [] := by
   have hi := C25_invariant hr
-  rcases s with ⟨upc, mpc, cl, ca, sess, last, auto, hooks⟩
+  rcases s with ⟨upc, mpc, cl, ca, sess, last, auto, hooks, fa, stl⟩
   simp only at h1 h2; subst h1 h2
   have hu : upc = .running ∨ upc = .failed := by cases upc <;> simp [Good] at hi <;> simp
   rcases hu with rfl | rfl
@@ -139,7 +139,7 @@ theorem C25_closed_is_final {a h : Bool} {s : St} (hr : Reach a h s) (h1 : s.cl 
 theorem C25_exit_reports_closed {a h : Bool} {s s' : St} {x : ConnState} (hr : Reach a h s) (hm : s.mpc = .exit)
     (hs : s' ∈ obs s (.st x)) (hmoved : s'.mpc ≠ s.mpc) : x = .closed ∧ s'.mpc = .dead := by
   have hi := C25_invariant hr
-  rcases s with ⟨upc, mpc, cl, ca, sess, last, auto, hooks⟩
+  rcases s with ⟨upc, mpc, cl, ca, sess, last, auto, hooks, fa, stl⟩
   simp only at hm; subst hm
   simp only [obs, List.mem_append] at hs
   rcases hs with hA | (hU | hC) | hM
@@ -155,7 +155,7 @@ theorem C25_exit_reports_closed {a h : Bool} {s s' : St} {x : ConnState} (hr : R
 theorem C25_recovers {a h : Bool} {s : St} (hr : Reach a h s) (hn : s.cl = .no) (h : reconnecting s = true) :
     (iter happy 17 s).mpc = .wait ∧ (iter happy 17 s).last = .connected := by
   have hi := C25_invariant hr
-  rcases s with ⟨upc, mpc, cl, ca, sess, last, auto, hooks⟩
+  rcases s with ⟨upc, mpc, cl, ca, sess, last, auto, hooks, fa, stl⟩
   simp only at hn; subst hn
   cases mpc with
   | done => simp [iter, happy]; close_inv
@@ -167,7 +167,7 @@ theorem C25_recovers {a h : Bool} {s : St} (hr : Reach a h s) (hn : s.cl = .no) 
 /-- every `happy` step is a step of the LTS (so the recovery path is a path of the model) -/
 theorem C25_happy_is_step (s : St) (h : reconnecting s = true) (hc : s.cancelled = false) (ha : s.auto = true) :
     happy s ∈ tau s ∨ ∃ e, happy s ∈ obs s e := by
-  rcases s with ⟨upc, mpc, cl, ca, sess, last, auto, hooks⟩
+  rcases s with ⟨upc, mpc, cl, ca, sess, last, auto, hooks, fa, stl⟩
   simp only at hc ha; subst hc ha
   cases mpc with
   | disc => cases hooks
